@@ -22,7 +22,7 @@ P = {
     "i2s_n": {"quick": 400, "thorough": 4000},
     "classify_vec": _cls,
     "required_classes": ["extend/ok", "extend/refuse", "contract/ok", "extcon/ok/simple", "split/nested", "split/none", "join/inverse", "join/noninverse"],
-    "level_text": "(Every vector of the bounded model is replayed twice, the second time with the entries of every mapping set inserted in the opposite order, and every second recorded case is built that way: the answers may not depend on insertion order.) Extension is specified operationally (the code's recursive parent lookup by source name) and declaratively (extended name = target names of the chain of enclosing classes joined by $; defined iff every enclosing class of a named class is in the set and named; only the chosen column of class rows changes; contraction keeps the part after the last valid $; contract(extend(M)) = M when the original names are simple; split / join mutually inverse). TLC checks the laws for every set of <= 4 classes over source names of nesting depth 0..3, packages, $ at the edges, orphans, named / unnamed targets (thorough: targets containing $), target namespace 2 or 3 (1 refused) and the split / join helpers on a pool of edge-case names; every case is replayed through Mappings::extend_inner_class_names / contract_inner_class_names and ObjClassName::{split_inner_class_parent_and_name, get_inner_class_parent, get_inner_class_name, from_inner_class}; random larger sets are judged by TLC.",
+    "level_text": "(Every vector of the bounded model is replayed twice, the second time with the entries of every mapping set inserted in the opposite order, and every second recorded case is built that way: the answers may not depend on insertion order.) Extension is specified operationally (the code's recursive parent lookup by source name) and declaratively (extended name = target names of the chain of enclosing classes joined by $; defined iff every enclosing class of a named class is in the set and named; only the chosen column of class rows changes; contraction keeps the part after the last valid $; contract(extend(M)) = M when the original names are simple; split / join mutually inverse). TLC checks the laws for every set of <= 4 classes over source names of nesting depth 0..3, packages, $ at the edges, orphans, named / unnamed targets (thorough: targets containing $), target namespace 2 or 3 (1 refused) and the split / join helpers on a pool of edge-case names; every case is replayed through Mappings::extend_inner_class_names / contract_inner_class_names and ObjClassName::{split_inner_class_parent_and_name, get_inner_class_parent, get_inner_class_name, from_inner_class}; random larger sets are judged by TLC. Target names may hold an unpaired surrogate (carried through JSON and TLA+ as a private-use character, mapped exactly in both directions by the projection); the pool of source names has a class inside an anonymous class.",
     "level_note": "Trusted: TLC string operators, projection Mappings <-> abstract tree.",
     "assumptions": ["TLC/SANY/CommunityModules", "harness projection quill Mappings <-> abstract tree (proj_quill.rs)"],
 }
